@@ -159,6 +159,31 @@ func TestPrefixes(t *testing.T) {
 	}
 }
 
+// TestGeneratedProgramPrefixes: every byte prefix of generated programs rendered with full trivia
+// (the input ends in the middle of every lexical construct the generator can derive:
+// heredocs with flexible terminators, interpolation forms, casts, comments, close tags ...).
+func TestGeneratedProgramPrefixes(t *testing.T) {
+	harness.Check(t, "program-prefixes", 800, 60000, func(rt *rapid.T) {
+		v := rapid.SampledFrom(versions()).Draw(rt, "version")
+		c := progs.Draw(rt, v, progs.Options(v), 1, 2)
+		src := c.G.Render(c.Root, progs.Policy(rt, phpgen.PolicyFull, nil)).Src
+		if len(src) > 600 {
+			src = src[:600]
+		}
+		for cut := 0; cut < len(src); cut++ {
+			cb := cut%2 == 0
+			harness.Class("src=program-prefix")
+			if cl, m := checkOne(src[:cut:cut], v, cb); cl != "" {
+				if cl == "hang" {
+					harness.Report(cl, m, src[:cut], meta(v, cb))
+					harness.FlushAndExit(1)
+				}
+				harness.Fail(rt, "program-prefixes", src[:cut], meta(v, cb), "%s\nsource: %q", m, src[:cut])
+			}
+		}
+	})
+}
+
 // TestGenerated: rapid-drawn inputs from all byte-level sources x versions x callback.
 func TestGenerated(t *testing.T) {
 	harness.Check(t, "generated", 160000, 4000000, func(rt *rapid.T) {
